@@ -299,7 +299,7 @@ package mux
 //@   ensures [C19] value: result == r.pattern
 //
 //@ fn Router.Handle
-//@   requires r != nil && r.tree != nil
+//@   requires routerOK(r) && allSafe() && sepOK()
 //@   maypanic
 //@   callsonly [C19,C17] slices.Concat, tree.Tree.Add
 //@   atcall tree.Tree.Add [C19,C09,C17] delegate: arg0 == r.tree && arg1 == pattern && arg2 == h && isConcat(arg3, m, r.ms) && arg4 == methods
@@ -343,17 +343,17 @@ package mux
 //@   ensures [C19] self: result == r
 //
 //@ fn Router.Remove
-//@   requires r != nil && r.tree != nil
+//@   requires routerOK(r) && allSafe() && sepOK()
 //@   callsonly [C19] tree.Tree.Remove
 //@   atcall tree.Tree.Remove [C19] delegate: arg0 == r.tree && arg1 == pattern && arg2 == methods
 //
 //@ fn Router.Clean
-//@   requires r != nil && r.tree != nil
+//@   requires routerOK(r) && allSafe() && sepOK()
 //@   callsonly [C19] tree.Tree.Clean
 //@   atcall tree.Tree.Clean [C19] delegate: arg0 == r.tree && arg1 == ""
 //
 //@ fn Router.Routes
-//@   requires r != nil && r.tree != nil
+//@   requires routerOK(r) && allSafe()
 //@   callsonly [C19] tree.Tree.Routes
 //@   ensures [C19] delegate: result == callresult("tree.Tree.Routes", 1, 0)
 //
@@ -415,7 +415,7 @@ package mux
 //@   atcall mux.Router.Remove [C19] delegate: arg0 == p.router && arg1 == p.pattern + pattern && arg2 == methods
 //
 //@ fn Prefix.Clean
-//@   requires p != nil && p.router != nil && p.router.tree != nil
+//@   requires p != nil && routerOK(p.router) && allSafe() && sepOK()
 //@   callsonly [C19] mux.Prefix.Pattern, tree.Tree.Clean
 //@   atcall tree.Tree.Clean [C19] delegate: arg0 == p.router.tree && arg1 == p.pattern
 //
@@ -654,3 +654,29 @@ package mux
 //@   nopanic [C16]
 //@   requires w != nil && l != nil
 //@   callsonly [C16] http.StatusText, http.Error, source.Stack, slog.Logger.Error
+
+// ---------------------------------------------------------------- API boundary: receivers and option targets are non-nil (C05)
+//@ fn Router.Name
+//@   requires r != nil && r.tree != nil
+//@ fn WithLock$1
+//@   requires o != nil
+//@ fn WithRecovery$1
+//@   requires o != nil
+//@ fn WithTrace$1
+//@   requires o != nil
+//@ fn WithURLDomain$1
+//@   requires o != nil
+//@ fn WithCORS$1
+//@   requires o != nil
+//@ fn options.sanitize
+//@   requires o != nil
+//@ fn buildOption
+//@   requires forall k int :: 0 <= k && k < len(o) ==> o[k] != nil
+//@   inv 1 [C05] bound: -1 <= rangeindex && rangeindex < len(o) && (forall k int :: 0 <= k && k < len(o) ==> o[k] != nil)
+//@ fn f2i
+//@   inv 1 [C05] bound: -1 <= rangeindex && rangeindex < len(f)
+//@ fn Group.Routers
+//@   requires g != nil
+//@ fn Group.Router
+//@   requires g != nil && (forall k int :: 0 <= k && k < len(g.routers) ==> g.routers[k] != nil && g.routers[k].tree != nil)
+//@   inv 1 [C05] bound: -1 <= rangeindex && rangeindex < len(g.routers)
